@@ -15,10 +15,14 @@ class _Sentinel(object):
     """build a sentinel object for the SENTINEL singleton"""
     def __repr__(self):
         return "<SENTINEL>"
+    def __reduce__(self):
+        return 'SENTINEL' # pickle by reference, preserving identity
 class _NoSentinel(object):
     """build a sentinel object for the NOSENTINEL singleton"""
     def __repr__(self):
         return "<NOSENTINEL>"
+    def __reduce__(self):
+        return 'NOSENTINEL' # pickle by reference, preserving identity
 
 SENTINEL = _Sentinel()
 NOSENTINEL = _NoSentinel()
